@@ -70,10 +70,27 @@ def dynamic_method(prog: Program, st, fi: FuncInfo, args):
     return over if over is not None and over.node is not None else fi
 
 
-def value_snapshot(st, v, depth=0):
-    """Comparable picture of a result: what it denotes, down to the objects it holds."""
+def value_snapshot(st, v, depth=0, strict=False):
+    """Comparable picture of a result: what it denotes (strict: and how it is represented - which unit, which
+    amount), down to the objects it holds."""
     if depth > 6:
         return "..."
+    if strict:
+        if isinstance(v, QtyV):
+            return ("qty", st.tfind(v.tid) if v.tid is not None else None,
+                    st.ufind(v.unit.uid) if isinstance(v.unit, UnitV) else repr(v.unit),
+                    repr(st.norm(v.amount.rf)) if isinstance(v.amount, Num) else repr(v.amount))
+        if isinstance(v, RateV):
+            return ("rate", st.ufind(v.unit.uid), st.ufind(v.term.uid), repr(st.norm(v.um.rf)), repr(st.norm(v.ta.rf)))
+        if isinstance(v, (TupleV, ListV)):
+            items = getattr(v, "items", None)
+            return (type(v).__name__, tuple(value_snapshot(st, x, depth + 1, True) for x in items) if items is not None else "?")
+        if type(v).__name__ == "ObjV":
+            return ("obj", v.ci.name if v.ci is not None else None,
+                    tuple(sorted((k, value_snapshot(st, x, depth + 1, True)) for k, x in v.fields.items())))
+        if type(v).__name__ == "DictV":
+            return ("dict", tuple((value_snapshot(st, k, depth + 1, True), value_snapshot(st, x, depth + 1, True))
+                                  for k, x in v.items))
     if isinstance(v, Num):
         return ("num", repr(st.norm(v.rf)))
     if isinstance(v, QtyV):
@@ -123,10 +140,34 @@ def value_snapshot(st, v, depth=0):
     return ("opaque", type(v).__name__, getattr(v, "tag", None))
 
 
-def _outcome_snapshot(st, kind, value, exc):
+def _freeze(v, depth=0):
+    """A structural copy of a result (same numbers, units and elements, new containers and objects): what it was
+    when it was handed out, to be compared later under whatever the path has learnt since."""
+    import copy as _copy
+    if depth > 6:
+        return v
+    if isinstance(v, QtyV):
+        c = _copy.copy(v)
+        return c
+    if isinstance(v, (TupleV, ListV)) and getattr(v, "items", None) is not None:
+        c = _copy.copy(v)
+        c.items = [_freeze(x, depth + 1) for x in v.items]
+        return c
+    if type(v).__name__ == "ObjV":
+        c = _copy.copy(v)
+        c.fields = {k: _freeze(x, depth + 1) for k, x in v.fields.items()}
+        return c
+    if type(v).__name__ == "DictV":
+        c = _copy.copy(v)
+        c.items = [(_freeze(k, depth + 1), _freeze(x, depth + 1)) for k, x in v.items]
+        return c
+    return v
+
+
+def _outcome_snapshot(st, kind, value, exc, strict=False):
     if kind == "raise":
         return ("raise", exc.name, getattr(exc, "tag", None))
-    return ("return", value_snapshot(st, value))
+    return ("return", value_snapshot(st, value, 0, strict))
 
 
 def run_case(prog: Program, fi: FuncInfo, setup: Callable, *, inline_ctor=False,
@@ -163,7 +204,8 @@ def run_case(prog: Program, fi: FuncInfo, setup: Callable, *, inline_ctor=False,
         first = first_value = None
         if replay:
             k1, v1, e1 = call()
-            first, first_value = _outcome_snapshot(st, k1, v1, e1), v1
+            first, first_value = _outcome_snapshot(st, k1, v1, e1, strict=True), v1
+            first_frozen = _freeze(v1) if k1 == "return" else None
             st.prior_effects.extend(st.effects)
             st.effects[:] = []
             st.oracle.trace.append("-- the call is repeated" + (" after the ambient state changed" if replay == "epoch" else ""))
@@ -174,8 +216,7 @@ def run_case(prog: Program, fi: FuncInfo, setup: Callable, *, inline_ctor=False,
         if replay:
             out.replay = replay
             out.first = first
-            out.first_after = _outcome_snapshot(st, "return", first_value, None) if first[0] == "return" else first
-            out.second = _outcome_snapshot(st, k, v, e)
+            second_frozen = _freeze(v) if k == "return" else None
             if replay == "epoch":
                 st.memo_hidden = True
                 st.oracle.trace.append("-- recomputation with nothing memoised")
@@ -184,6 +225,11 @@ def run_case(prog: Program, fi: FuncInfo, setup: Callable, *, inline_ctor=False,
                 out.cold = _outcome_snapshot(st, k3, v3, e3)
                 st.effects[:] = saved
                 st.memo_hidden = False
+            out.second = _outcome_snapshot(st, k, second_frozen, e, strict=(replay == "same"))
+            # (all pictures are taken now, under everything the path has learnt: only a change of the objects
+            # themselves makes the two pictures of the first result differ)
+            out.first_was = _outcome_snapshot(st, "return", first_frozen, None, strict=True) if first[0] == "return" else first
+            out.first_after = _outcome_snapshot(st, "return", first_value, None, strict=True) if first[0] == "return" else first
         out.args = args
         out.kwargs = kwargs
         out.ctx = ctx
